@@ -41,7 +41,7 @@ def run_case(i, tier, seed):
         if len(rpcs) > 6:
             rpcs = sorted(rng.sample(rpcs, 6))
     kind = ["memory", "local", "vfs"][i % 3]
-    root = harness.unique_root(kind)
+    root = harness.unique_root(kind, rng=rng)
     url = synth.install(files, root, kind)
     sample = None
     try:
